@@ -618,6 +618,62 @@ static void sc_wb_fcache_new(char **av, int ac)
 	if (fc) LIB(fcache_decref(fc));
 }
 
+/* wb_chunk <prefetch order> <pos> <len>: fcache_get_chunk over a chunk that crosses file-cache
+ * block boundaries, read(2) cache only; the blocks are cached beforehand in the given order
+ * (digits = block numbers), so that their buffers are not adjacent and the chunk has to be
+ * copied out.  Whatever allocation fails, no cache entry may stay referenced. */
+static void sc_wb_chunk(char **av, int ac)
+{
+	char path[] = "/tmp/res-oomchunk-XXXXXX";
+	int fd = mkstemp(path), i;
+	size_t pgsz = sysconf(_SC_PAGESIZE);
+	off_t pos = argull(av, 1); size_t len = argull(av, 2), k;
+	struct fcache *fc; struct fcache_chunk fch; struct fcache_entry fce;
+	kdump_status st;
+	unsigned long refs;
+	unlink(path);
+	{
+		char *pg = __real_malloc(pgsz);
+		for (i = 0; i < 6; ++i) { memset(pg, 'a' + i, pgsz); if (write(fd, pg, pgsz) < 0) _exit(4); }
+		__real_free(pg);
+	}
+	LIB(fc = fcache_new(1, &fd, 8, 0));
+	if (!fc) _exit(4);
+	fc->mmap_policy.number = KDUMP_MMAP_NEVER;
+	for (i = 0; av[0][i] >= '0' && av[0][i] <= '5'; ++i) {
+		LIB(st = fcache_get(fc, &fce, 0, (off_t)(av[0][i] - '0') * pgsz));
+		if (st != KDUMP_OK) _exit(4);
+		LIB(fcache_put(&fce));
+	}
+	win_open();
+	{
+		unsigned long fb = oom_failed_calls;
+		st = fcache_get_chunk(fc, &fch, len, 0, pos);
+		if (oom_failed_calls != fb) {
+			if (st == KDUMP_ERR_SYSTEM) any_call_failed_ok = 1;
+			else if (!missed[0]) snprintf(missed, sizeof missed, "fcache_get_chunk=%d", (int)st);
+		}
+	}
+	note_held();
+	win_close();
+	out(" shape=st:%d;geom:%s", (int)st, st != KDUMP_OK ? "-" : fch.nent > MAX_EMBED_FCES ? "array" : fch.nent ? "embed" : "copy");
+	if (st == KDUMP_OK) {
+		for (k = 0; k < len; ++k)
+			if (((unsigned char *)fch.data)[k] != 'a' + (pos + k) / pgsz) { surv_fail("chunk data differ at %zu", k); break; }
+		LIB(fcache_put_chunk(&fch));
+	}
+	refs = verif_cache_refsum(fc->cache) + verif_cache_refsum(fc->fbcache);
+	if (refs) surv_fail("fcache_get_chunk (status %d) leaves %lu cache entries referenced", (int)st, refs);
+	else {
+		/* the cache is still usable: the same chunk can be had now */
+		LIB(st = fcache_get_chunk(fc, &fch, len, 0, pos));
+		if (st != KDUMP_OK) surv_fail("fcache_get_chunk repeated: status %d", (int)st);
+		else LIB(fcache_put_chunk(&fch));
+	}
+	LIB(fcache_decref(fc));
+	close(fd);
+}
+
 static void sc_wb_cache_alloc(char **av, int ac)
 {
 	unsigned n = atoi(av[0]); size_t size = argull(av, 1);
@@ -866,6 +922,10 @@ static addrxlat_status x_get_page(const addrxlat_cb_t *cb, addrxlat_buffer_t *bu
 static addrxlat_status x_sym(char kind, const char *a1, const char *a2, addrxlat_addr_t *val)
 {
 	int i;
+	/* "Y ERR <name> - 0": the callback fails for this name (with something else than NODATA) */
+	for (i = 0; i < nxsym; ++i)
+		if (xsyms[i].kind == 'E' && !strcmp(xsyms[i].a1, a1))
+			return addrxlat_ctx_err(xcb_ctx, ADDRXLAT_ERR_NOTIMPL, "Callback refuses %s", a1);
 	for (i = 0; i < nxsym; ++i)
 		if (xsyms[i].kind == kind && !strcmp(xsyms[i].a1, a1) && (!a2 || !strcmp(xsyms[i].a2, a2))) {
 			*val = xsyms[i].val; return ADDRXLAT_OK;
@@ -1016,14 +1076,65 @@ static void sc_wb_sys_os(char **av, int ac)
 	LIB(addrxlat_sys_decref(sys)); LIB(addrxlat_sys_decref(ref)); LIB(addrxlat_ctx_decref(ax));
 }
 
+/* wb_sys_meth <variant bits> @<scenario file>: the life of a translation system whose methods
+ * the application replaces: os_init; bit0: addrxlat_sys_set_meth() over every method the set-up
+ * defined with a table of its own (LOOKUP/PGT/MEMARR -> a LINEAR one); bit1: os_init again;
+ * bit2: replace again after that; bit3: a second os_init with different options (no memory);
+ * then the last reference is dropped.  Nothing the library allocated may remain. */
+static void sc_wb_sys_meth(char **av, int ac)
+{
+	addrxlat_ctx_t *ax; addrxlat_sys_t *sys;
+	addrxlat_opt_t opts[12]; addrxlat_fulladdr_t root;
+	unsigned v = atoi(av[0]);
+	char *spec = av[1][0] == '@' ? load_xcfg(av[1] + 1) : strdup(av[1]);
+	int n = parse_sys_opts(spec, opts, &root), round, i;
+	addrxlat_status st;
+	addrxlat_cb_t *cb;
+	LIB(ax = addrxlat_ctx_new()); LIB(sys = addrxlat_sys_new());
+	if (!ax || !sys) _exit(4);
+	LIB(cb = addrxlat_ctx_add_cb(ax));
+	if (!cb) _exit(4);
+	xcb_ctx = ax;
+	cb->get_page = x_get_page; cb->read_caps = x_read_caps; cb->reg_value = x_reg;
+	cb->sym_value = x_val; cb->sym_sizeof = x_size; cb->sym_offsetof = x_off; cb->num_value = x_num;
+	win_open();
+	for (round = 0; round < 2; ++round) {
+		unsigned long fb = oom_failed_calls;
+		if (round == 1 && !(v & 2) && !(v & 8)) break;
+		if (round == 1 && (v & 8)) nxmem = 0;           /* the target memory is gone */
+		st = addrxlat_sys_os_init(sys, ax, n, opts);
+		if (oom_failed_calls != fb) {
+			if (st == ADDRXLAT_ERR_NOMEM) any_call_failed_ok = 1;
+			else if (!missed[0]) snprintf(missed, sizeof missed, "addrxlat_sys_os_init=%d", (int)st);
+		}
+		out(" os_init%d=%d", round, (int)st);
+		if (round == 0 ? (v & 1) : (v & 4))
+			for (i = 0; i < ADDRXLAT_SYS_METH_NUM; ++i) {
+				const addrxlat_meth_t *m = addrxlat_sys_get_meth(sys, i);
+				if (m->kind == ADDRXLAT_LOOKUP || m->kind == ADDRXLAT_MEMARR || m->kind == ADDRXLAT_PGT) {
+					addrxlat_meth_t lin;
+					memset(&lin, 0, sizeof lin);
+					lin.kind = ADDRXLAT_LINEAR; lin.target_as = ADDRXLAT_KPHYSADDR; lin.param.linear.off = 0x1000;
+					addrxlat_sys_set_meth(sys, i, &lin);
+					out(" replaced=%d(kind%d)", i, (int)m->kind);
+				}
+			}
+	}
+	(void)sys_use(ax, sys);
+	addrxlat_sys_decref(sys);
+	note_held();
+	win_close();
+	LIB(addrxlat_ctx_decref(ax));
+}
+
 static const struct { const char *name; void (*fn)(char **, int); int minargs; } scenarios[] = {
 	{ "new", sc_new, 0 }, { "clone", sc_clone, 2 }, { "open", sc_open, 1 }, { "reopen", sc_reopen, 1 }, { "reopen2", sc_reopen2, 2 },
 	{ "read", sc_read, 4 }, { "readstr", sc_readstr, 3 }, { "attrs", sc_attrs, 1 },
 	{ "pagemap", sc_pagemap, 1 }, { "vmcoreinfo", sc_vmcoreinfo, 1 }, { "free", sc_free, 1 }, { "getxlat", sc_getxlat, 1 },
 	{ "wb_xlat", sc_wb_xlat, 1 }, { "wb_fcache_new", sc_wb_fcache_new, 3 },
-	{ "wb_cache_alloc", sc_wb_cache_alloc, 2 }, { "wb_pfn_regions", sc_wb_pfn_regions, 1 },
+	{ "wb_cache_alloc", sc_wb_cache_alloc, 2 }, { "wb_chunk", sc_wb_chunk, 3 }, { "wb_pfn_regions", sc_wb_pfn_regions, 1 },
 	{ "wb_dict", sc_wb_dict, 1 }, { "wb_create_path", sc_wb_create_path, 1 },
-	{ "wb_clone_path", sc_wb_clone_path, 1 }, { "wb_map_seq", sc_wb_map_seq, 1 }, { "wb_sys_os", sc_wb_sys_os, 1 },
+	{ "wb_clone_path", sc_wb_clone_path, 1 }, { "wb_map_seq", sc_wb_map_seq, 1 }, { "wb_sys_os", sc_wb_sys_os, 1 }, { "wb_sys_meth", sc_wb_sys_meth, 2 },
 };
 
 static void emit_events(void)
